@@ -11,7 +11,7 @@ family functions are checked the same way.
 import re
 
 from core import RuleOut
-from hirlib import callee, callee_decl, call_args, pat_variants, peel, peel_refs, strip_generics, walk
+from hirlib import place_path, callee, callee_decl, call_args, pat_variants, peel, peel_refs, strip_generics, walk
 
 
 class Family:
@@ -405,12 +405,37 @@ class Trav:
         cb_ids = self.callback_ids(fn)
         body = fn["body"]
         n_matches = 0
+        # a nested match on a CHILD of the subject (a binding of an enclosing family arm) that only looks at the
+        # child's kind — the child is handed WHOLE to a visit call in that same arm (`match lhs.as_ref() { Power(..)
+        # => "(" + lhs.pretty_print() + ")", _ => with_parens(lhs) }`) — is a peek: the visit obligation for the child
+        # is carried (and checked) at the binding in the enclosing arm, the peek's own arms carry none
+        child_arm = {}
+        for m0 in walk(body):
+            if m0.get("k") == "Match" and str(m0.get("src", "")) == "Normal" and strip_generics(self.crate.ty(peel_refs(m0["scrut"]))) in fam.enums:
+                for arm0 in m0["arms"]:
+                    for b0 in walk(arm0["pat"]):
+                        if b0.get("k") == "Binding":
+                            child_arm.setdefault(b0["id"], arm0)
+
+        def _root_local(e):
+            e = peel_refs(e)
+            while e.get("k") == "MethodCall" and e["name"] in ("as_ref", "deref", "borrow", "as_deref") and not e["args"]:
+                e = peel_refs(e["recv"])
+            p = place_path(e)
+            return p[0] if p and not p[2] else None
+
         for n in walk(body):
             k = n.get("k")
             if k == "Match" and str(n.get("src", "")) == "Normal" and not (len(n.get("s", [])) >= 3 and n["s"][2] == 1):
                 st = strip_generics(self.crate.ty(peel_refs(n["scrut"])))
                 if st not in fam.enums:
                     continue
+                r0 = _root_local(n["scrut"])
+                if r0 in child_arm and not any(x is n for x in [child_arm[r0]]):
+                    outer = [child_arm[r0]["body"]]
+                    if "*" in self.visit_uses(outer, derive(outer, {r0}), cb_ids):
+                        self.peeks = getattr(self, "peeks", 0) + 1
+                        continue
                 n_matches += 1
                 adt = self.crate.adts.get(st)
                 all_variants = [v["name"] for v in adt["variants"]] if adt else []
